@@ -173,13 +173,14 @@ def _trace_repo_job(rel):
     return v
 
 
-def _compzero_job(kind):
+def _compzero_job(a):
     from .. import compzero
 
+    kind, pt = a
     L = lifecycle.Live(kind)
-    L.set_point("p0")
+    L.set_point(pt)
     L.run()
-    return (kind, compzero.component_cases(L.m.prob))
+    return (kind + "@" + pt, compzero.component_cases(L.m.prob))
 
 
 def run(tier, only=None):
@@ -227,7 +228,7 @@ def run(tier, only=None):
                 confirmed.add(json.dumps(h))
     # point z at component granularity: every component alone, evaluated at its inputs of the model and then with one input zeroed
     ncz = 0
-    for kind, cases in check_exc(pmap(_compzero_job, KINDS["thorough"] if tier == "thorough" else ["aero2", "aerog", "as_tube", "as_wingbox", "multipoint"])):
+    for kind, cases in check_exc(pmap(_compzero_job, [(k, p) for k in (KINDS["thorough"] if tier == "thorough" else ["aero2", "aerog", "as_tube", "as_wingbox", "multipoint"]) for p in (("p0", "p2") if k.startswith("aero") or tier == "thorough" else ("p0",))])):
         for cls, what, verdict, detail in cases:
             ncz += 1
             R.case(["component_zero", kind, cls, what], verdict != "skipped", sample={"component": cls, "zeroed": what, "verdict": verdict} if ncz % 61 == 0 else None, section="component_special_values")
